@@ -28,6 +28,7 @@ type ClientOpts struct {
 	ConnectTimeout int    `json:"connect_timeout_s"`
 	Logger         int    `json:"logger"` // 0 none, 1 recording, 2 failing
 	WebSocket      bool   `json:"websocket,omitempty"`
+	Address        string `json:"address,omitempty"` // overrides the default address of the chosen transport
 }
 
 const (
@@ -37,6 +38,9 @@ const (
 )
 
 func addrFor(o ClientOpts) string {
+	if o.Address != "" {
+		return o.Address
+	}
 	if o.WebSocket {
 		return SimWSAddr
 	}
